@@ -48,6 +48,17 @@ pub fn lattice_reps(_opts: &Opts, limit: usize, reps: usize, rng: &mut (impl Rng
             }
         }
     }
+    // tall points: aggregation factors beyond 32 (the serialised witness, the commitment list and the party index
+    // outgrow one byte / 16 KiB there), at the smallest bit lengths
+    for (j, &(n, m)) in [(1usize, 64usize), (2, 64), (1, 128), (1, 256), (2, 128), (1, 512)].iter().enumerate() {
+        if n * m > 2 * limit {
+            continue;
+        }
+        let t = [1usize, 4, 2, 6, 3, 1][j];
+        let kind = if j % 2 == 0 { RngKind::ChaCha(rng.next_u64()) } else { RngKind::Zero };
+        pts.push((n, m, m, t, (i * 5 + j) % 9, false, kind));
+        i += 1;
+    }
     Lattice { pts }
 }
 
